@@ -49,17 +49,18 @@ MSGS = {
     'BADLEN4097': (b'\xff' * 16 + b'\x10\x01\x02', dict(kind='BADLEN')),
     'BADTYPE': (frame(9), dict(kind='BADTYPE')),
     # frames whose length is legal for the header but not for their type (C18/C10 only)
-    'OPEN_short': (frame(1, b'\x04\xfd\xea\x00\x5a\x0a\x00\x00\x02'), dict(kind='SHORT')),
-    'UPD_short': (frame(2, b'\x00\x00\x00'), dict(kind='SHORT')),
-    'NOTI_short': (frame(3, b'\x06'), dict(kind='SHORT')),
-    'KA_long': (frame(4, b'\x00'), dict(kind='SHORT')),
+    # RFC 4271 6.1: below the minimum length of the message type (KEEPALIVE: not 19) is a Bad Message Length header error
+    'OPEN_short': (frame(1, b'\x04\xfd\xea\x00\x5a\x0a\x00\x00\x02'), dict(kind='BADLEN')),
+    'UPD_short': (frame(2, b'\x00\x00\x00'), dict(kind='BADLEN')),
+    'NOTI_short': (frame(3, b'\x06'), dict(kind='BADLEN')),
+    'KA_long': (frame(4, b'\x00'), dict(kind='BADLEN')),
     'RR_short': (frame(5, b'\x00\x01\x00'), dict(kind='SHORT')),
     'RR_orf': (frame(5, b'\x00\x01\x00\x01' + b'\x01\x40\x00\x01\x00'), dict(kind='RR')),
 }
 ODD_LENGTH = ['OPEN_short', 'UPD_short', 'NOTI_short', 'KA_long', 'RR_short', 'RR_orf']
 ALPHABET_C01 = ['OPEN', 'OPEN_h0', 'OPEN_h1', 'OPEN_h2', 'OPEN_h9', 'OPEN_badver', 'OPEN_badas', 'OPEN_badcap',
                 'KA', 'UPD', 'UPD1', 'UPD_unkfam', 'UPD_malformed', 'UPD_wdoverrun', 'NOTI_VER', 'NOTI_CEASE', 'NOTI_HDR', 'NOTI_UPD', 'NOTI_HOLD', 'NOTI_FSM', 'NOTI_RR', 'NOTI_UNK', 'RR', 'BADMARK', 'BADLEN', 'BADLEN0',
-                'BADLEN4097', 'BADTYPE']
+                'BADLEN4097', 'BADTYPE', 'OPEN_short', 'UPD_short', 'NOTI_short', 'KA_long']
 ALPHABET_SMALL = ['OPEN', 'OPEN_h1', 'OPEN_badas', 'KA', 'UPD', 'NOTI_VER', 'NOTI_CEASE', 'BADMARK']
 
 
